@@ -270,7 +270,9 @@ def order_free(m):
     """Values that depend on the graph only (no tie between equal alternatives is decided by storage order)."""
     fns = {'atoms': lambda: sorted((n, a.implicit_hydrogens, a.explicit_hydrogens, a.neighbors, a.heteroatoms, a.hybridization, a.in_ring)
                                    for n, a in m.atoms()),
-           'bonds': lambda: sorted((min(n, k), max(n, k), b.order, bool(b.in_ring)) for n, k, b in m.bonds()),
+           # ring membership of a real bond is a property of the graph (every cycle edge is in some ring of any basis); for an
+           # order-8 bond, which the ring graph leaves out, the mark says "both ends share a ring of the chosen basis" - a tie
+           'bonds': lambda: sorted((min(n, k), max(n, k), b.order, bool(b.in_ring) if b.order != 8 else None) for n, k, b in m.bonds()),
            'rings_count': lambda: m.rings_count, 'ring_sizes': lambda: sorted(len(r) for r in m.sssr),
            'components': lambda: sorted(tuple(sorted(c)) for c in m.connected_components),
            'brutto': lambda: _sd(m.brutto), 'charge': lambda: m.molecular_charge, 'radical': lambda: m.is_radical,
